@@ -13,7 +13,7 @@ from __future__ import annotations
 import itertools
 import threading
 
-from lib import e5ref, stuck, vtime, wire
+from lib import e5ref, gen, stuck, vtime, wire
 
 PROPERTY = "C07"
 LEVEL = "exploration"
@@ -64,7 +64,7 @@ class Run:
         self.h = self.rig.handler
         self.policy = policy
         self.hist = []
-        self.sysgen = itertools.count(0x20000000 + ctx.rng.randrange(1 << 16) * 256)
+        self.sysgen = gen.system_bytes(ctx.rng, 0x20000000 + ctx.rng.randrange(1 << 16) * 256)
         self.enabled = True       # Rig() enables the handler
         self.bad = False
         self.callbacks = []       # (S,F, model_established_at_call)
@@ -163,6 +163,34 @@ class Run:
             if self.rig.comm_state == "COMMUNICATING":
                 self.violation("M3:still-COMMUNICATING-after-link-loss")
         self.failed_pending = False
+
+    def ev_peer_ends_session_then_closes(self, how):
+        """The peer ends the HSMS session in an orderly way (Separate.req or Deselect.req) before it closes the connection."""
+        self.note(f"peer {how} + close")
+        system = next(self.sysgen)
+        self.rig.pipe.feed(wire.hsms_control(wire.SEPARATE_REQ if how == "separate" else wire.DESELECT_REQ, system))
+        self.rig.quiesce(1.0)
+        if self.rig.pipe.link_up:
+            self.rig.pipe.peer_close()
+        if not self.rig.pipe.wait_closed(5.0):
+            self.ctx.count("close_sequence_did_not_finish")
+            self.bad = True
+            return
+        self.settle()
+        self.ctx.count("oracle.M3_link_loss_or_disable")
+        self.ctx.count("oracle.M3_orderly_session_end_before_close")
+        if self.rig.comm_state == "COMMUNICATING":
+            self.rig.confirm_absent(lambda: self.rig.comm_state != "COMMUNICATING")
+            if self.rig.comm_state == "COMMUNICATING":
+                self.violation(f"M3:still-COMMUNICATING-after-link-loss:peer-{how}-first")
+        self.failed_pending = False
+
+    def ev_change_delay(self):
+        """The establish-communications delay is reconfigured while the handler runs (settings property; EC 'EstablishCommunicationsTimeout')."""
+        new = self.ctx.rng.choice([3, 7, 15, 25, 60])
+        self.note(f"configure delay={new}")
+        self.h.settings.establish_communication_timeout = new
+        self.ctx.count("delay_reconfigured")
 
     def ev_disable(self):
         self.note("disable")
@@ -267,6 +295,12 @@ class Run:
             if self.rig.comm_state == "COMMUNICATING":
                 return
             timers, t3 = look()
+        if timers:
+            want = self.h.settings.establish_communication_timeout
+            self.ctx.count("oracle.M2_delay_interval_checked")
+            if abs(timers[-1].interval - want) > 1e-9:
+                self.violation("M2:retry-delay-differs-from-the-configured-delay", armed_for_s=timers[-1].interval, configured_s=want)
+                return
         if not timers and not t3:
             self.violation(f"M2:no-retry-scheduled-after-{why}-attempt", pending=[t.kind for t in vtime.pending()])
         elif why == "refused" and not timers:
@@ -383,7 +417,9 @@ def _history(ctx, i, length):
             run.ev_enable() if r < 0.8 else run.ev_other(1, 1, True) if up else run.ev_enable()
             continue
         if not up:
-            if r < 0.75:
+            if r < 0.06:
+                run.ev_change_delay()
+            elif r < 0.75:
                 run.ev_link_up()
             elif r < 0.85:
                 run.ev_disable()
@@ -392,8 +428,12 @@ def _history(ctx, i, length):
             else:
                 run.ev_fire_delay() or run.ev_link_up()
             continue
-        if r < 0.07:
+        if r < 0.05:
             run.ev_peer_close()
+        elif r < 0.08:
+            run.ev_peer_ends_session_then_closes(rng.choice(["separate", "deselect"]))
+        elif r < 0.10:
+            run.ev_change_delay()
         elif r < 0.12:
             run.ev_disable()
         elif r < 0.30:
